@@ -163,7 +163,7 @@ def run(ctx):
               required=('DoDelete', 'DoReplace', 'DoInsert', 'DropFarComment', 'DropNearComment', 'DupComment',
                         'DropLineComment', 'ReindentFarLine', 'SwapFarStatements', 'DropFarBlank', 'DropNearBlank',
                         'GlueComment'), heap='3g'))
-    n_hist, n_steps = (420, 8) if ctx.quick else (5600, 10)
+    n_hist, n_steps = (420, 8) if ctx.quick else (4200, 10)
     specs = history_specs(ctx, n_hist, n_steps)
     wave = 560  # histories generated and validated together (bounds memory in the thorough tier)
     collect(ctx, validate_all(ctx, generated_cases(ctx)))
@@ -207,6 +207,7 @@ def run_step(rec, tt, tid: int, pre_src: str, pl: dict, extra=None):
     plan.op = None
     tree = ast.parse(pre_src)
     node = edits.node_at(tree, plan.path)
+    plan.kind = plan.kind or type(node).__name__
     plan.lo = 1 if plan.field == '_body' and edits.has_docstr(node) else 0
     if plan.form == 'opt':
         plan.length, plan.quant = 1, 'single'
@@ -258,6 +259,24 @@ def _line_text(x):
     return ('new = 0' if x['id'] == 9 else f"s{x['id']} = {x['id']}") + (f"  # c{x['tr']}" if x['tr'] else '')
 
 
+# block contexts the abstract statement list of a table row is embedded in: (header lines, indentation, path of the
+# container, field, footer lines).  The header and footer are foreign text: the reference result keeps them as they are.
+CONTEXTS = [
+    ([], '', [], 'body', []),
+    (['if x:  # hc'], '    ', [['body', 0]], 'body', ['z = 0  # fc']),
+    (['if x: a  # hc', 'else:  # ec'], '    ', [['body', 0]], 'orelse', ['z = 0']),
+    (['try: a', 'finally:  # fc'], '    ', [['body', 0]], 'finalbody', ['z = 0']),
+    (['try:', '    a', 'except E: b  # xc', 'else:'], '    ', [['body', 0]], 'orelse', ['z = 0']),
+    (['def f():  # hc', "    '''doc'''"], '    ', [['body', 0]], '_body', ['', 'z = 0']),
+    (['for i in j: a', 'else:'], '    ', [['body', 0]], 'orelse', []),
+    (['class C:  # cc'], '    ', [['body', 0]], 'body', ['z = 0']),
+    (['while x:', '    if y: a  # ac', '    else:'], '        ', [['body', 0], ['body', 0]], 'orelse', ['    w = 1  # wc']),
+    (['match x:', '    case 1:  # kc'], '        ', [['body', 0], ['cases', 0]], 'body', ['    case _: pass']),
+    (['with a as b:  # hc'], '\t', [['body', 0]], 'body', ['z = 0']),
+    (['try: a', 'except E:  # xc'], '  ', [['body', 0], ['handlers', 0]], 'body', ['finally: c']),
+]
+
+
 def _gen_shard(args):
     shard_id, rows = args
     from harness import edits, c04_tokens
@@ -266,8 +285,15 @@ def _gen_shard(args):
     traces, scripts = [], {}
     for tid, row in rows:
         q = row['req']
-        pre_src = '\n'.join(_line_text(x) for x in row['pre']) + '\n'
-        pl = {'path': [], 'kind': 'Module', 'field': 'body', 'start': None, 'stop': None, 'idx': None, 'et': 'stmt',
+        head, ind, path, field, foot = CONTEXTS[row['ctx']]
+
+        def text(lines):
+            body = [ind + t if t else '' for t in map(_line_text, lines)]
+            return head + body + foot
+
+        pre_src = '\n'.join(text(row['pre'])) + '\n'
+        kind = {'body': 'Module'}.get(field, '') if not path else ''
+        pl = {'path': path, 'kind': kind, 'field': field, 'start': None, 'stop': None, 'idx': None, 'et': 'stmt',
               'srcs': [], 'codeform': 'src', 'corrupt': None, 'view': None,
               'opts': {'trivia': (q['lm'], q['tm'])}}
         if q['op'] == 'delete':
@@ -276,9 +302,11 @@ def _gen_shard(args):
             pl.update(form='one', idx=q['i'] - 1, srcs=['new = 0'], op='replace')
         else:
             pl.update(form='slice', start=q['i'] - 1, stop=q['i'] - 1, srcs=['new = 0'], op='insert', opts={})
-        expect = [tt.line(_line_text(x)) for x in row['expect']]
-        g = {'op': q['op'], 'expect': expect, 'newline': tt.line('new = 0')}
-        tr, script = run_step(rec, tt, tid, pre_src, pl, extra=lambda post_src: {'g': g})
+        # lines are compared without their indentation: where pfst leaves an unselected line comment of a removed
+        # statement (column 0 or block indentation) is not the reference editor's business
+        g = {'op': q['op'], 'expect': [tt.line(t.strip()) for t in text(row['expect'])], 'newline': tt.line('new = 0')}
+        tr, script = run_step(rec, tt, tid, pre_src, pl,
+                              extra=lambda post_src: {'g': dict(g, got=[tt.line(t.strip()) for t in post_src.split('\n')])})
         scripts[tid] = {'driver': 'c04_gen', 'progs': [], 'variant': -2, 'seed': 0, 'nsteps': 1, 'script': [script]}
         traces.append(tr)
     return dict(rec.tab.dump(), **tt.dump(), traces=traces), scripts
@@ -300,7 +328,9 @@ def generated_cases(ctx, nproc=14):
         rows = json.load(f)
     ctx.extra['case_table_rows'] = len(rows)
     rng = random.Random(ctx.seed + 77)  # seed-dependent sample of the table (quick: NStmt = 2, thorough: NStmt = 3)
-    rows = rng.sample(rows, min(len(rows), 3000 if ctx.quick else 24000))
+    rows = rng.sample(rows, min(len(rows), 3000 if ctx.quick else 12000))
+    for k, row in enumerate(rows):  # each sampled row is replayed inside one block context (all contexts in turn)
+        row['ctx'] = k % len(CONTEXTS)
     ctx.extra['generated_cases'] = len(rows)
     numbered = list(enumerate(rows, 1))
     nshards = max(1, min(nproc, len(numbered) // 200 or 1), len(numbered) // 1500)
